@@ -98,7 +98,7 @@ class EnforceGen:
     for long name lists, system calls no Go program needs); process-ending actions only on probe calls the Go
     runtime never issues by itself."""
 
-    KINDS = ["names", "names", "cond", "cond", "cond", "mixed", "mixed", "long_names", "long_cond", "x_errno"]
+    KINDS = ["names", "names", "cond", "cond", "cond", "mixed", "mixed", "long_names", "long_cond", "x_errno", "alt_many"]
 
     def __init__(self, rng, consts, arches, hard=True, soft_names=None, hard_names=None):
         self.rng = rng
@@ -138,6 +138,8 @@ class EnforceGen:
         cs = [self.pg.cond() for _ in range(n)]
         if n >= 2 and self.rng.random() < 0.3:
             cs[1] = (cs[0][0], cs[1][1], cs[1][2])
+        if n >= 3 and self.rng.random() < 0.3:
+            cs[-1] = cs[self.rng.randrange(n - 2)]      # the very same condition again at the end of the list
         return cs
 
     def group(self, a, nn, nw, nc_choices):
@@ -204,6 +206,21 @@ class EnforceGen:
                 nc = min(left, rng.choice([60, 85, 120, 200]))
                 g["nwc"].append(dict(name=rng.choice([w["name"] for w in g["nwc"]]), conds=self.conds(nc)))
                 left -= nc
+        elif kind == "alt_many":
+            # two or three conditional system calls in one group with very many one-condition alternatives each: the
+            # blocks straddle the reach of an 8-bit jump offset before and after bridges are inserted
+            a = self.action()
+            pool = self.pool(a)
+            nwc = []
+            for nm in rng.sample(pool, min(len(pool), rng.randint(2, 3))):
+                na = rng.choice([60, 62, 63, 64, 65, 66, 84, 85, 86, 100, 127, 128])
+                arg = rng.randint(0, 5)
+                base = rng.choice([0, 1000, 1 << 32, 1 << 63])
+                for k in range(na):
+                    nwc.append(dict(name=nm, conds=[(arg, rng.choice(["Eq", "Eq", "Eq", "Set"]), base + 3 * k + 1)]))
+            groups.append(dict(action=a, names=[], nwc=nwc))
+            if rng.random() < 0.5:
+                groups.append(self.group(self.action(), rng.randint(1, 3), 0, [1]))
         elif kind.startswith("truncation"):
             # more than 65536 instructions: sock_fprog.len (16 bits) wraps around to a small number. Lists of 100
             # equality conditions compile to 473 instructions each (bridges included); 139 lists give 65773.
@@ -246,6 +263,17 @@ class EnforceGen:
         def add(nr, args):
             evs.append("V %d %d %d %s" % (nr, 3221225534, 0, " ".join(str(a & M64) for a in args)))
 
+        if len(lists) > 60:
+            # very many lists: aim at a sample of them, and at each sampled one also under the OTHER conditional calls' numbers
+            lists = [lists[i] for i in sorted(rng.sample(range(len(lists)), 60))]
+            others = sorted(set(nr for (nr, _) in lists))
+            for (nr, cs) in lists[:20]:
+                args = self.rand_args(leak)
+                for (a, o, v) in cs:
+                    args[a] = self.pg.satisfy(o, v)
+                for nr2 in others:
+                    if nr2 != nr:
+                        add(nr2, args)
         for (nr, cs) in lists:
             if len(evs) >= count * 2 // 3:
                 break
